@@ -572,6 +572,11 @@ def _titem(env, kind, arg):
     return HItem(env, kind, arg, "ok", env.tool_uid)
 
 
+def _tread(env):
+    """C07: what a tool body reads of scoped value 0 after its request came back (only when the program asks for it)"""
+    return [shape(env.svs[0].get())] if env.prog.get("tool_reads") else []
+
+
 def _count(env, tool, k):
     env.tool_runs[(tool, k)] = env.tool_runs.get((tool, k), 0) + 1
 
@@ -633,23 +638,23 @@ def t_gen(env, n, kind, cid0, mode):
         if mode == "await":
             with RecCtx(env, cid0 + i, None):
                 v = yield _titem(env, kind, i)
-            yield asynq.Value(["g", i, shape(v)])
+            yield asynq.Value(["g", i, shape(v)] + _tread(env))
         elif mode == "value":
             v = yield _titem(env, kind, i)
             with RecCtx(env, cid0 + i, None):
-                yield asynq.Value(["g", i, shape(v)])
+                yield asynq.Value(["g", i, shape(v)] + _tread(env))
         elif mode == "span":
             break
         else:
             v = yield _titem(env, kind, i)
-            yield asynq.Value(["g", i, shape(v)])
+            yield asynq.Value(["g", i, shape(v)] + _tread(env))
     if mode == "span":
         # one block around several Values (no await inside: this part of the body runs in the consumer's own steps), then an await
         with RecCtx(env, cid0, None):
             for i in range(n):
-                yield asynq.Value(["g", i, ["v", kind, i]])
+                yield asynq.Value(["g", i, ["v", kind, i]] + _tread(env))
         v = yield _titem(env, kind, n)
-        yield asynq.Value(["g", n, shape(v)])
+        yield asynq.Value(["g", n, shape(v)] + _tread(env))
 
 
 def t_key(env, kind):
@@ -658,6 +663,14 @@ def t_key(env, kind):
         v = yield _titem(env, kind, x)
         return v[2]                      # the item's value is ["v", kind, arg]
     return key
+
+
+def t_val(env, kind):
+    @A()
+    def val(x):
+        v = yield _titem(env, kind, x)
+        return [v[2]] + _tread(env) if env.prog.get("tool_reads") else v[2]
+    return val
 
 
 def t_pred(env, kind):
@@ -673,7 +686,7 @@ def _retry_body(env, k, kind):
     v = yield _titem(env, kind, k)
     if n == 1:
         raise HRetry(k)
-    return ["retry", k, n, shape(v)]
+    return ["retry", k, n, shape(v)] + _tread(env)
 
 
 t_retry = _tools.aretry(HRetry, max_tries=2, sleep=0)(A()(_retry_body))
@@ -684,7 +697,7 @@ def t_plain(env, k, kind):
     v = yield _titem(env, kind, k)
     if k % 4 >= 2:
         raise env.exc(("cwc", k))
-    return ["plain", k, shape(v)]
+    return ["plain", k, shape(v)] + _tread(env)
 
 
 class CwcCtx(RecCtx):
@@ -712,7 +725,7 @@ def build_tool(env, s):
         k, n, kind = s[2], s[3], s[4]
         xs = list(range(k + n - 1, k - 1, -1))
         if name == "amap":
-            return _tools.amap.asynq(t_key(env, kind), xs)
+            return _tools.amap.asynq(t_val(env, kind), xs)
         if name == "afilter":
             return _tools.afilter.asynq(t_pred(env, kind), xs)
         fn = {"asorted": _tools.asorted, "amin": _tools.amin, "amax": _tools.amax}[name]
